@@ -57,6 +57,12 @@ pub fn main() -> i32 {
         eprintln!("tier must be quick or thorough");
         return 2;
     }
+    if matches!(args.cmd.as_str(), "C09" | "C11" | "C13" | "C14" | "C16" | "selfcheck") {
+        if let Err(e) = spos::validate() {
+            eprintln!("MACHINERY: {e}");
+            return 2;
+        }
+    }
     match args.cmd.as_str() {
         "selfcheck" => match oracle::self_check(true) {
             Ok(n) => {
